@@ -5,7 +5,7 @@ import "time"
 func init() {
 	reg(&prop{
 		id: "C20", pkg: "c20", prep: prepGen,
-		rule: "(i) every std package, base and the release assembly are compiled by the tree's wuffs-c in 20 (thorough 324) fresh processes under varied GOMAXPROCS (1/4/16), working directory (root, package dir, std/, root through a symlink, outside), absolute vs relative file arguments, TZ/LANG/HOME values, two-at-a-time vs serial invocation; exit status and sha256 must equal the reference that `wuffs gen` wrote during preparation (every fresh process is a fresh sample of Go's randomised map iteration); rapid-generated multi-file packages (1-6 files with names whose lexical, numeric and creation order disagree, 0-8 statuses, 0-6 consts, 1-5 structs embedding each other so that topological order contradicts source order, pub/pri pure/!/? methods) get 6 (thorough 12) runs each, with a sorted or permuted explicit file list; (ii) `wuffs gen` on a scratch root whose files were created in a drawn order (raw readdir order verified to differ from sorted order, vacuous cases counted separately) must produce the bytes of `wuffs-c gen` on the explicit SORTED list; (iii) the snapshot regenerated from the tree's std/ with the tree's tools equals release/c/wuffs-unsupported-snapshot.c byte for byte; (iv) lang/check/gen.go run on a copy of axioms.md (GOMAXPROCS 1/4/16) reproduces lang/check/data.go byte for byte. Non-trivial = package with >= 2 source files and >= 3 statuses/consts/structs; distinct by package hash.",
+		rule: "(i) every std package, base and the release assembly are compiled by the tree's wuffs-c in 20 (thorough 324) fresh processes under varied GOMAXPROCS (1/4/16), working directory (root, package dir, std/, root through a symlink, outside), absolute vs relative file arguments, TZ/LANG/HOME values, two-at-a-time vs serial invocation; exit status and sha256 must equal the reference that `wuffs gen` wrote during preparation (every fresh process is a fresh sample of Go's randomised map iteration); rapid-generated multi-file packages (1-6 files with names whose lexical, numeric and creation order disagree, 0-8 statuses, 0-6 consts, 1-5 structs embedding each other so that topological order contradicts source order, pub/pri pure/!/? methods) get 6 (thorough 12) runs each, with a sorted or permuted explicit file list; three cases in ten are instead a single-file program of the E2 generator go/wgen (coroutines, helpers over several I/O streams with explicit returns, iterate, io_bind/io_limit, labelled loops, named constants), accepted or rejected, so that statement-level output paths of the code generator are sampled as well; (ii) `wuffs gen` on a scratch root whose files were created in a drawn order (raw readdir order verified to differ from sorted order, vacuous cases counted separately) must produce the bytes of `wuffs-c gen` on the explicit SORTED list; (iii) the snapshot regenerated from the tree's std/ with the tree's tools equals release/c/wuffs-unsupported-snapshot.c byte for byte; (iv) lang/check/gen.go run on a copy of axioms.md (GOMAXPROCS 1/4/16) reproduces lang/check/data.go byte for byte. Non-trivial = accepted package with >= 3 statuses/consts/structs/funcs that has >= 2 source files or is a wgen program; distinct by package hash.",
 		assumptions:   []string{"sha256 and os.ReadDir are trusted", "'always' is sampled with a fresh process as the unit; GODEBUG/GOGC and other filesystems are not varied"},
 		minNontrivial: 20,
 		quick: tier{jobs: []job{
